@@ -377,13 +377,13 @@ func tailStr(s string, n int) string {
 
 // Japanese text: double-byte characters whose Shift_JIS trail byte is 0x5c ('\')
 // (ソ 表 能 予 十 貼) or 0x7c (ポ), half-width katakana, ordinary kana/kanji.
-var jpTexts = []string{"ソフトウェア", "表示する", "機能一覧", "予定", "十", "ポート番号", "ｶﾀｶﾅ ﾊﾝｶｸ", "ブートセクタ", "読み込み開始", "ＦＡＴ１２フォーマットフロッピーディスクのための記述", "能", "噂", "申請", "構造", "暴走", "ソ", "ｱ", "表", "次の行へ", "ｿ", "ﾎﾟ", "あいうえお", "データ", "終わり"}
+var jpTexts = []string{"ソフトウェア", "表示する", "機能一覧", "予定", "十", "ポート番号", "ｶﾀｶﾅ ﾊﾝｶｸ", "ブートセクタ", "読み込み開始", "ＦＡＴ１２フォーマットフロッピーディスクのための記述", "能", "噂", "申請", "構造", "暴走", "ソ", "ｱ", "表", "次の行へ", "ｿ", "ﾎﾟ", "あいうえお", "データ", "終わり", "ﾀｲ", "ﾀｲﾏｰ", "ﾁｬﾀｲ", "ﾄｰ", "ｿﾞｰﾝ"}
 
 var failingSrcs = []string{"\tMOV AX,\n", "\tMOV AX,1\n\tGARBAGE here\n", "\tDB \"unterminated\n", "lbl\n\tMOV AX,1\n", "\t[BITS\n", "\tMOV AX,1\n\tJMP {{.x}}\n", "\tDB 1,2,3\n\tMOV AX,(\n"}
 
 var propC19 = &Prop[CLICase]{
 	ID:     "C19",
-	Rule:   "runs of the gosk binary: argument vectors of 0..4 positional arguments (+ -d) over existing source / destination, missing file, directory, path below a regular file, path in a missing directory, list file; generated programs (C03/C05/C08 generators, with and without -d) compared with the in-process API; sources whose comments hold Shift_JIS or UTF-8 Japanese text (trail bytes 0x5c/0x7c, half-width katakana) versus the comment-free source, also behind 1..66 KiB of ASCII-only lines, with a 5/70 KiB comment line, and with LF/CRLF/CR line endings; degenerate sources (empty, line breaks only, comments only); sources whose DB strings are Shift_JIS text versus the same bytes written as numbers; failing runs into an absent or pre-filled destination; oracle: exit 16 for < 2 positional arguments, 17 for unreadable source or uncreatable output, non-zero plus a line:col position on a parse error, exit 0 and file = exact image otherwise, commented = uncommented, after a failing run the destination is absent, empty or unchanged; non-trivial = the binary ran and a contract clause applied; distinct by case text",
+	Rule:   "runs of the gosk binary: argument vectors of 0..4 positional arguments (+ -d) over existing source / destination, missing file, directory, path below a regular file, path in a missing directory, list file; generated programs (C03/C05/C08 generators, with and without -d) compared with the in-process API; sources whose comments hold Shift_JIS or UTF-8 Japanese text (trail bytes 0x5c/0x7c, half-width katakana) versus the comment-free source, also behind 1..66 KiB of ASCII-only lines, with a 5/70 KiB comment line, and with LF/CRLF/CR line endings; degenerate sources (empty, line breaks only, comments only); UTF-8 sources with string data in which a multi-byte character lies across a power-of-two offset (512 .. 65536); three long programs (20 000 and 40 000 statements, 3 000 labels); sources whose DB strings are Shift_JIS text versus the same bytes written as numbers; failing runs into an absent or pre-filled destination; oracle: exit 16 for < 2 positional arguments, 17 for unreadable source or uncreatable output, non-zero plus a line:col position on a parse error, exit 0 and file = exact image otherwise, commented = uncommented, after a failing run the destination is absent, empty or unchanged; non-trivial = the binary ran and a contract clause applied; distinct by case text",
 	Assume: []string{"the sandbox runs as root, so permission bits cannot make a path unwritable; 'a directory', 'a path below a regular file' and 'a path in a missing directory' stand in for unwritable destinations"},
 	Gen: func(t *rapid.T) CLICase {
 		switch rapid.IntRange(0, 9).Draw(t, "kind") {
@@ -422,6 +422,19 @@ var propC19 = &Prop[CLICase]{
 			if rapid.IntRange(0, 5).Draw(t, "breakit") == 0 {
 				src += rapid.SampledFrom(failingSrcs).Draw(t, "broken")
 			}
+			if rapid.IntRange(0, 7).Draw(t, "straddle") == 0 {
+				// a multi-byte character lies across a power-of-two offset of a UTF-8 source that also holds UTF-8
+				// string data (whoever sniffs the encoding from a prefix of the file must not cut a character in two)
+				n := rapid.SampledFrom([]int{512, 1024, 2048, 4096, 8192, 16384, 32768, 65536}).Draw(t, "straddlen")
+				k := rapid.IntRange(1, 2).Draw(t, "straddlek")
+				var sb strings.Builder
+				for sb.Len()+130 < n-k {
+					sb.WriteString("; ------------------------------------------------------------\n")
+				}
+				sb.WriteString("; " + strings.Repeat("x", n-k-sb.Len()-2))
+				sb.WriteString("\u65e5\u672c\u8a9e \u00e9\n\tDB \"\u65e5\u672c\",1\n\tMOV AX,1 ; \u7d42\u308f\u308a\n\tDB \"caf\u00e9\"\n")
+				src = sb.String()
+			}
 			if rapid.IntRange(0, 9).Draw(t, "tiny") == 0 {
 				// degenerate programs: nothing at all, only line breaks, only comments
 				src = rapid.SampledFrom([]string{"", "\n", "\n\n", "; nothing\n", "# nothing", " \t\n", "\r\n", "\tHLT", "\tHLT\n"}).Draw(t, "tinysrc")
@@ -443,6 +456,17 @@ var propC19 = &Prop[CLICase]{
 				}
 			}
 			enc := rapid.SampledFrom([]string{"sjis", "utf8", "raw"}).Draw(t, "enc")
+			// one file in five: every comment consists of byte pairs that are shaped like UTF-8 sequences without
+			// being UTF-8 (half-width katakana pairs in Shift_JIS): the decision between the two encodings is made
+			// on the whole file
+			shaped := rapid.IntRange(0, 4).Draw(t, "shapedonly") == 0
+			if shaped && enc == "sjis" {
+				for i := range coms {
+					if coms[i] != "" {
+						coms[i] = rapid.SampledFrom([]string{"ﾀｲ", "ﾀｲﾏｰ", "ﾁｬﾀｲ", "ﾀｲ ﾁｬ", "ﾁｬ"}).Draw(t, "shapedjp")
+					}
+				}
+			}
 			if enc == "raw" {
 				for i := range coms {
 					if coms[i] == "" {
@@ -450,7 +474,11 @@ var propC19 = &Prop[CLICase]{
 					}
 					var b []byte
 					for k := rapid.IntRange(1, 8).Draw(t, "rawn"); k > 0; k-- {
-						switch rapid.IntRange(0, 5).Draw(t, "rawk") {
+						rk := rapid.IntRange(0, 5).Draw(t, "rawk")
+						if shaped {
+							rk = 4
+						}
+						switch rk {
 						case 0: // user-defined / unassigned double-byte area
 							b = append(b, byte(rapid.IntRange(0xf0, 0xfc).Draw(t, "rl")), byte(rapid.SampledFrom([]int{0x40, 0x5c, 0x7c, 0x7e, 0x80, 0xfc}).Draw(t, "rt")))
 						case 1: // lone lead byte
@@ -459,6 +487,9 @@ var propC19 = &Prop[CLICase]{
 							b = append(b, []byte(rapid.SampledFrom([]string{"\uFFFD", "\u00e9", "\U0001F600", "\u200b"}).Draw(t, "ru"))...)
 						case 3:
 							b = append(b, byte(rapid.IntRange(0x20, 0xff).Draw(t, "rany")))
+						case 4: // shaped like UTF-8 (lead + continuation bytes) without being UTF-8: overlong forms, surrogates,
+							// beyond U+10FFFF - half-width katakana pairs and some kanji look like this in Shift_JIS
+							b = append(b, rapid.SampledFrom([][]byte{{0xc0, 0xb2}, {0xc1, 0xac}, {0xc0, 0xb2, 0xcf, 0xb0}, {0xe0, 0x80, 0x80}, {0xe0, 0x9f, 0xbf}, {0xed, 0xa0, 0x80}, {0xf0, 0x80, 0x80, 0x80}, {0xf4, 0x90, 0x80, 0x80}, {0xc4, 0xb0}, {0xdf, 0xbf}}).Draw(t, "rshape")...)
 						default:
 							b = append(b, []byte(rapid.SampledFrom([]string{"\\", "|", "~", "ｿ", ";", "#"}).Draw(t, "rascii"))...)
 						}
@@ -487,6 +518,18 @@ var propC19 = &Prop[CLICase]{
 		}
 	},
 	Check: checkC19,
+	// long programs: whatever the command does before it hands the text to the assembler (reading, decoding,
+	// limits of the parser it configures) must scale with them
+	Enum: func(tier string, yield func(CLICase)) bool {
+		yield(CLICase{Kind: "prog", Src: strings.Repeat("\tNOP\n", 20000)})
+		yield(CLICase{Kind: "prog", Src: strings.Repeat("\tNOP ; comment\n", 40000)})
+		var sb strings.Builder
+		for i := 0; i < 3000; i++ {
+			fmt.Fprintf(&sb, "L%d:\n\tMOV AX,L%d\n\tJE L%d\n\tDB \"x\",%d\n", i, (i*7)%(i+1), i, i%256)
+		}
+		yield(CLICase{Kind: "prog", Src: sb.String()})
+		return false
+	},
 }
 
 func TestC19(t *testing.T) { Run(t, propC19) }
